@@ -43,9 +43,10 @@ type rig struct {
 	reg    *sqldrv.Registry
 	sess   map[string]*sqldrv.Session // one per schema variant × layout (the reader caches version info per session name)
 
-	mu    sync.Mutex
-	db    *chsql.DB
-	stmts []stmtRec
+	mu      sync.Mutex
+	db      *chsql.DB
+	complex bool
+	stmts   []stmtRec
 	scans []scanRec
 }
 
@@ -53,6 +54,9 @@ type variant struct {
 	Cluster   bool `json:"cluster"`
 	Metrics15 bool `json:"metrics15s"` // SHOW TABLES lists metrics_15s
 	TempoV2   bool `json:"tempo_v2"`   // settings hold the tempo_v2 update (timestamp_ns/duration usable in the attrs index)
+	// Complex: the TraceQL complexity estimate is answered with 25e6 index rows, so the search runs through the
+	// complex request processor: three portions, the later ones also carrying the trace ids found so far
+	Complex bool `json:"complex,omitempty"`
 }
 
 func (v variant) name() string {
@@ -103,6 +107,9 @@ func (r *rig) session(v variant) *sqldrv.Session {
 
 // use points the reader at the variant's session and layout.
 func (r *rig) use(v variant) {
+	r.mu.Lock()
+	r.complex = v.Complex
+	r.mu.Unlock()
 	cl := ""
 	if v.Cluster {
 		cl = "cl"
@@ -139,6 +146,11 @@ func (r *rig) handle(ctx context.Context, q string) (*sqldrv.Rows, error) {
 		return nil, fmt.Errorf("code: 60, message: no database")
 	}
 	rec := stmtRec{SQL: q}
+	if r.complex && strings.Contains(q, "pre_final") && strings.HasSuffix(strings.TrimSpace(q), "FROM pre_final") {
+		// the complexity estimate (a count over the index, no rows of its own reach the answer)
+		r.stmts = append(r.stmts, rec)
+		return sqldrv.NewRows([]string{"_count"}, [][]driver.Value{{int64(25000000)}}), nil
+	}
 	res, err := db.Exec(q)
 	var rows *sqldrv.Rows
 	if err != nil {
